@@ -92,11 +92,26 @@ impl Members {
         // update the member, then set the return to "Update".
         // Because a newly inserted member would always have the same
         // timestamp this code doesn't run if we just inserted.
+        let mut moved_from = None;
         if actor.ts().to_duration() > member.ts.to_duration() {
+            if member.addr != actor.addr() {
+                moved_from = Some(member.addr);
+                // the ring was measured for the previous address
+                member.ring = None;
+            }
             member.addr = actor.addr();
             member.ts = actor.ts();
             member.cluster_id = actor.cluster_id();
             ret = MemberAddedResult::Updated;
+        }
+
+        // the member moved: RTT samples are keyed by address, follow it
+        if let Some(old_addr) = moved_from {
+            if self.by_addr.get(&old_addr) == Some(&actor_id) {
+                self.by_addr.remove(&old_addr);
+            }
+            self.by_addr.insert(actor.addr(), actor_id);
+            self.recalculate_rings(actor.addr());
         }
 
         // If we just inserted, add the actor to the by_addr set and
